@@ -37,7 +37,11 @@ def nontrivial_c16(lines, meta):
 
 
 def events_only(lines):
-    return [l.split(" | ")[0] for l in lines]
+    return [l.split(" | ")[0] for l in lines if not l.startswith("DEPTHS")]
+
+
+def no_depths(lines):
+    return [l for l in lines if not l.startswith("DEPTHS")]
 
 
 PROPS = {
@@ -52,6 +56,7 @@ PROPS = {
     "C16": {
         "rule": "same generator families as C15; compared at every callback: the six context answers (current type, its literal, parent type, field definition, input type, its literal) and the six stack depths after the walk (hook verif_stack_depths). non-trivial = a list/object literal under a wrapped ([..]) expected type and at least one unknown field or argument",
         "nontrivial": nontrivial_c16,
+        "impl_spec_view": no_depths,
         "partial": "",
     },
 }
